@@ -8,7 +8,7 @@ props = [json.loads(l) for l in open(os.path.join(ROOT, "properties.jsonl"))]
 CLAIMED = {
  "C19": ("Arithmetic laws proved in Coq for all n (not only n <= 100000) and for all duplicate-free sets; the model is tied to the code by an "
          "exhaustive correspondence n=0..100000 of SuperMajority/TrustCount (fresh, grown by WithNewPeer and shrunk sets) and by the "
-         "SetAnchorBlock/CheckBlock decisions around every threshold with real signatures",
+         "SetAnchorBlock/CheckBlock/CheckBlockWithTrusted (known = the signers, known = everybody) decisions around every threshold with real signatures",
          "8 theorems by lia/induction; math.Ceil(float64(n)/3) modelled as (n+2)/3 (tie checked exhaustively); trusted: Coq kernel, extraction, harness",
          "Coq theorems (lia, induction on duplicate-free lists) + exhaustive model/implementation correspondence"),
  "C18": ("Median model (int64 wrap written explicitly) proved in Coq to stay within the honest range for every list with fewer than half (a fortiori a third) "
@@ -24,7 +24,7 @@ CLAIMED = {
          "in any way with ProcessSigPool calls (the operation alphabet of the other properties: C07_admitted_wf_hrun / _ops): stored events are signed, "
          "of known participants, parent-complete, extend their creator's chain by exactly one (index = self-parent index + 1), no fork, gap-free listings; "
          "a rejected attempt leaves the whole state unchanged; the consensus passes never touch the admitted DAG. Tied to the code by a tamper-grammar "
-         "harness (direct and wire paths) whose result class and observables are compared with the model after every attempt",
+         "harness (direct and wire paths) whose result class and observables are compared with the model after every attempt; a quarter of the sequences run on an InmemStore of 5..12 events with a lazy creator (admission oracle only, the model has no cache)",
          "theorems are about the HgImpl model of Hashgraph.InsertEvent after fix 26c0384; premise: event ids (hash ordinals) determine the event; "
          "e_sigok is the observed Event.Verify() result",
          "Coq invariant proof (induction over attempt lists, frame lemmas for every consensus pass) + tamper-grammar correspondence"),
@@ -109,7 +109,7 @@ CLAIMED = {
          "served before is served after`; the same statements are REFUTED for the code as it was, one vm_compute witness per site. Tied to "
          "the code by ~4400 helper/handler cases replayed on the model under the detected repair configuration, an oracle on real nodes in every state "
          "(recover + watchdog + delivered blocks before/after + liveness probe), multi-step scenarios and raw bytes on a real TCP transport",
-         "25 theorems, no axioms; signature validity, store/consensus acceptance and hash comparisons are universally quantified data; inside Hashgraph.Reset / "
+         "31 theorems, no axioms; signature validity, store/consensus acceptance and hash comparisons are universally quantified data; inside Hashgraph.Reset / "
          "the consensus passes only the dereferences are modelled; Go 1.23 ecdsa/big/hex/utf8 and codec v1.1.7 quoteStr behaviours transliterated",
          "Coq theorems + refutation witnesses + helper/handler-level correspondence + implementation oracle (panic/hang/wedge/blocks) + TCP exploration"),
  "C11": ("Proved in Coq for every node history (insertion attempts valid or not, ProcessSigPool at any moment, any genesis set) and EVERY crash point of its "
